@@ -1383,6 +1383,7 @@ impl CommandExecutor for DrawExecutor {
                     return Err(anyhow::anyhow!("VTPosition command requires 2 argument"));
                 }
                 caret.set_position(Position::new(parameters[0], parameters[1]));
+                buf.terminal_state.limit_caret_pos(buf, caret);
                 Ok(CallbackAction::NoUpdate)
             }
             _ => Err(anyhow::anyhow!("Unimplemented IGS command: {command:?}")),
